@@ -619,8 +619,18 @@ func checkNewlineAccounting(c *Check, memo map[*types.Func]runeSet) {
 	run := func(fi *FuncInfo, entry uint32, record bool) (unsafe []token.Pos, ensures bool, mayAdv bool) {
 		g := L.CFG(fi)
 		tags := caseTags(fi.Decl.Body)
-		aliasBit := map[types.Object]uint32{}
+		aliasBit := map[types.Object]uint32{}  // local variable still equals peek()
+		aliasNBit := map[types.Object]uint32{} // local variable still equals peekNext()
 		nextBit := uint32(bAlias0)
+		bitFor := func(m map[types.Object]uint32, obj types.Object) uint32 {
+			b, ok := m[obj]
+			if !ok && nextBit != 0 {
+				b = nextBit
+				m[obj] = b
+				nextBit <<= 1
+			}
+			return b
+		}
 		// which expression denotes the next rune / the one after
 		isPeekExpr := func(e ast.Expr, s uint32) int { // 1 = peek, 2 = peekNext, 0 = neither
 			e = ast.Unparen(e)
@@ -635,6 +645,9 @@ func checkNewlineAccounting(c *Check, memo map[*types.Func]runeSet) {
 			if id, ok := e.(*ast.Ident); ok {
 				if b, ok := aliasBit[info.Uses[id]]; ok && s&b != 0 {
 					return 1
+				}
+				if b, ok := aliasNBit[info.Uses[id]]; ok && s&b != 0 {
+					return 2
 				}
 			}
 			return 0
@@ -748,7 +761,13 @@ func checkNewlineAccounting(c *Check, memo map[*types.Func]runeSet) {
 				if s&bNextSafe != 0 {
 					ns = bSafe
 				}
-				return ns // aliases invalid, nextSafe unknown
+				// what was the rune after next is the next rune now: a variable holding peekNext() holds peek()
+				for obj, nb := range aliasNBit {
+					if s&nb != 0 {
+						ns |= bitFor(aliasBit, obj)
+					}
+				}
+				return ns // other aliases invalid, nextSafe unknown
 			case fn == inc.Obj:
 				return s | bSafe
 			}
@@ -786,15 +805,17 @@ func checkNewlineAccounting(c *Check, memo map[*types.Func]runeSet) {
 					if b, ok := aliasBit[obj]; ok {
 						s &^= b
 					}
+					if b, ok := aliasNBit[obj]; ok {
+						s &^= b
+					}
 					if len(as.Rhs) == len(as.Lhs) {
-						if call, ok := ast.Unparen(as.Rhs[i]).(*ast.CallExpr); ok && Callee(info, call) == peek.Obj {
-							b, ok := aliasBit[obj]
-							if !ok && nextBit != 0 {
-								b = nextBit
-								aliasBit[obj] = b
-								nextBit <<= 1
+						if call, ok := ast.Unparen(as.Rhs[i]).(*ast.CallExpr); ok {
+							switch Callee(info, call) {
+							case peek.Obj:
+								s |= bitFor(aliasBit, obj)
+							case peekNext.Obj:
+								s |= bitFor(aliasNBit, obj)
 							}
-							s |= b
 						}
 					}
 				}
